@@ -37,7 +37,7 @@ var statMutationsListCmd = &cobra.Command{
 		}
 
 		al := <-aligns.Achan
-		if aligns.Err != nil {
+		if al == nil {
 			err = aligns.Err
 			io.LogError(err)
 			return
